@@ -110,7 +110,7 @@ def _pick_cases(ctx, trees, lives):
         v.sort(key=lambda t: t[2])
         rnd.shuffle(v)
     cases = []
-    n_target = ctx.pick(520, 10 ** 9)
+    n_target = ctx.pick(520, 8000)
     # every root class with every lifecycle on its smallest tree, then a round-robin sample
     for root, ts in sorted(by_root.items()):
         t = min(ts, key=lambda t: (t[1], t[2]))
